@@ -300,6 +300,11 @@ void Executor::op_param(const Op& op, Obj& o) {
     // setSettings(settings of a second object) has exactly the effect of the typed setters
     sut::Sut other; int nset = r.range(1, 4);
     for (int k = 0; k < nset; k++) { int p = P::i(safeI[r.below(sizeof safeI / sizeof safeI[0])]); other.setInt(p, r.range(pi.ilo[p], std::min(pi.iup[p], pi.ilo[p] + 6))); }
+    // every parameter must travel with the settings object, also the ones at the end of the tables
+    if (r.chance(0.5)) other.setInt(P::i("multiprecision_limit"), r.range(50, 5000));
+    if (r.chance(0.5)) other.setInt(P::i("storeBasisSimplexFreq"), r.range(1, 50000));
+    if (r.chance(0.5)) other.setReal(P::r("precision_boosting_factor"), 1.0 + r.range(0, 8));
+    if (r.chance(0.5)) other.setBool(P::b("recovery_mechanism"), r.chance(0.5));
     if (r.chance(0.5)) other.setInt(P::i("syncmode"), r.range(0, 2));
     other.setInt(P::i("verbosity"), 0); other.setInt(P::i("objsense"), s.getInt(P::i("objsense"))); other.setReal(P::r("obj_offset"), s.getReal(P::r("obj_offset")));
     bool ok = s.copySettingsFrom(other);
